@@ -8,6 +8,8 @@ SCHEMA = {
                           'restriction_criteria': ('list', CRIT), 'abstract': 'bool', 'inheritors': ('list', 'str'),
                           'base_container_name': ('opt', 'str')},
     'XtcePacketDefinition': {'containers': ('smap', 'SequenceContainer'), 'root_container_name': ('opt', 'str')},
+    'Parameter': {'name': 'str', 'parameter_type': ('rec', ['IntegerParameterType', 'FloatParameterType',
+                                                            'StringParameterType', 'BinaryParameterType'])},
 }
 PKT_VALUES = ('mobj', 'CCSDSPacket', {'__items__': ('odict', {'kinds': ['IntParameter', 'FloatParameter', 'StrParameter'],
                                                             'rawkinds': ['int', 'real', 'str']})})
@@ -186,19 +188,75 @@ GROUPS = ('mdict', 'int', ('list', RPD_))    # open segment groups by APID
 CUR = 'current_container'
 NV = f'nvalid({CUR}, {M}, packet, len({CUR}.inheritors))'
 
+def _ptype_requires():
+    """the preconditions of ParameterType.parse_value's variants, each under the condition that selects the variant, read
+    through self.parameter_type"""
+    import re
+    from contracts import ptypes as PT
+    con = [c for c in PT.CONTRACTS if c.target == 'xtce.parameter_types.ParameterType.parse_value'][0]
+    out = [("cls_is(self.parameter_type, 'IntegerParameterType') or cls_is(self.parameter_type, 'FloatParameterType') or "
+            "cls_is(self.parameter_type, 'StringParameterType') or cls_is(self.parameter_type, 'BinaryParameterType')",
+            ['__proof__'])]
+    for vn, v in con.variants.items():
+        sel = re.sub(r'\bself\b', 'self.parameter_type', v['select'])
+        for r in v['requires']:
+            expr = r[0] if isinstance(r, tuple) else r
+            out.append((f"implies({sel}, {re.sub(chr(92) + 'bself' + chr(92) + 'b', 'self.parameter_type', expr)})", ['__proof__']))
+    return out
+
+
+DECODE_ERRORS = ('ValueError', 'KeyError', 'ComparisonError', 'CalibrationError', 'UnicodeDecodeError', 'TypeError',
+                 'OverflowError')
+
 CONTRACTS = [
+    Contract(
+        target='xtce.parameters.Parameter.parse',
+        props=['C05', 'C14', 'C11', 'C01'],
+        params={'self': ('rec', 'Parameter'), 'packet': PKT_VALUES},
+        returns='none',
+        # ghost event: a call decodes THIS parameter (the event log is what the walk's contract speaks about)
+        ghost={'events': True, 'emits': 'self'},
+        # validity of the parameter type hanging off the parameter: the preconditions of the parse_value contracts
+        requires=[('param_ok(self)', ['__proof__']), ('packet.raw_data.pos >= 0', ['__proof__'])],
+        reveal=['param_ok'],
+        ensures={
+            'decoded': ('events() == append(events0(), self)', ['__proof__']),
+            'cursor_monotone': ('packet.raw_data.pos >= old(packet.raw_data.pos)', ['__proof__']),
+            # C05 (PROVED): the value is stored under the parameter's own name; a new name goes to the END of the
+            # packet, every other item is untouched
+            'stored': ('self.name in packet', ['__proof__']),
+            'order_new': ('implies(not old(self.name in packet), '
+                          'keys_of(packet) == append(old(keys_of(packet)), self.name))', ['__proof__']),
+            'order_kept': ('implies(old(self.name in packet), keys_of(packet) == old(keys_of(packet)))', ['__proof__']),
+        },
+        may_raise={k: 'True' for k in DECODE_ERRORS},
+        modifies=['packet.items', 'packet.raw_data.pos'],
+    ),
     Contract(
         target='xtce.containers.SequenceContainer.parse',
         props=['C05', 'C14', 'C11', 'C01'],
         params={'self': ('rec', 'SequenceContainer'), 'packet': PKT_VALUES},
         returns='none',
-        requires=[], ensures={},
-        may_raise={'ValueError': 'True', 'KeyError': 'True', 'ComparisonError': 'True', 'CalibrationError': 'True',
-                   'UnicodeDecodeError': 'True', 'TypeError': 'True', 'OverflowError': 'True'},
+        ghost={'events': True},
+        # every parameter reachable from here is one the proved decoders accept (param_ok, opaque here)
+        requires=[('entries_ok(self)', ['__proof__']), ('packet.raw_data.pos >= 0', ['__proof__'])],
+        loops={('', 0): LoopSpec(
+            invariants={'decoded_so_far': 'events() == lcat(events0(), flat_upto(self, _i))',
+                        'cursor_monotone': 'packet.raw_data.pos >= old(packet.raw_data.pos)'},
+            havoc_ghost=['events'], modifies=['packet.items', 'packet.raw_data.pos'],
+            hints=['flat_zero(self)', 'entries_ok_def(self)',
+                   'implies(_i < len(self.entry_list) and cls_is(at(self.entry_list, _i), "SequenceContainer"), '
+                   'entries_ok_def(at(self.entry_list, _i)))',
+                   'implies(_i < len(self.entry_list), flat_step_parameter(self, _i))',
+                   'implies(_i < len(self.entry_list), flat_step_container(self, _i))'])},
+        ensures={
+            # C05 (PROVED): the walk decodes exactly the parameters of the entry list, in entry-list order, each once,
+            # nested container references expanded in place (whatever the packet holds: no early exit, no skipping)
+            'walk': ('events() == lcat(events0(), flat(self))', ['__proof__']),
+            'cursor_monotone': ('packet.raw_data.pos >= old(packet.raw_data.pos)', ['__proof__']),
+        },
+        may_raise={k: 'True' for k in DECODE_ERRORS},
         modifies=['packet.items', 'packet.raw_data.pos'],
-        native_only=('frame-only contract ASSUMED by the proof of parse_ccsds_packet: the entry-list walk writes the packet '
-                     'items and the cursor and nothing else; what it writes is checked against ref_parse by the bounded '
-                     'stand-in of parse_ccsds_packet'),
     ),
     Contract(
         target='xtce.definitions.XtcePacketDefinition.parse_ccsds_packet',
@@ -207,10 +265,16 @@ CONTRACTS = [
         returns=('arg', 'packet'),
         # callers that catch the error see the packet decoded so far as its partial_data (obligation on_raise:...:payload)
         ghost={'raise_payload': {'UnrecognizedPacketTypeError': {'partial_data': 'packet'}}},
-        requires=[('len(packet.raw_data) >= 6', ['__proof__']), (f"{_REF}[0] != 'error'", ['__native__'])],
+        requires=[('len(packet.raw_data) >= 6', ['__proof__']), (f"{_REF}[0] != 'error'", ['__native__']),
+                  # every container holds parameters the proved decoders accept; the cursor starts inside the packet
+                  ('defn_ok(self)', ['__proof__']), ('packet.raw_data.pos >= 0', ['__proof__'])],
+        hints_after={'current_container': ['defn_ok_at(self, root_container_name)']},
         loops={
-            ('', 0): LoopSpec(invariants={}, modifies=['packet.items', 'packet.raw_data.pos'],
+            ('', 0): LoopSpec(invariants={'container_ok': f'entries_ok({CUR})',
+                                          'cursor_nonneg': 'packet.raw_data.pos >= 0'},
+                              modifies=['packet.items', 'packet.raw_data.pos'],
                               retype={'valid_inheritors': ('list', 'str')},
+                              hints_end=['defn_ok_at(self, at(valid_inheritors, 0))'],
                               step={
                                   # C05 (PROVED): a descent happens only when EXACTLY ONE child has all its restriction
                                   # criteria satisfied, and goes to a child that satisfies them
@@ -269,7 +333,8 @@ CONTRACTS = [
                   for rn, rt in (('root_default', 'none'), ('root_given', 'str'))
                   for bn, bt in (('buffer_default', 'none'), ('buffer_given', 'int'))},
         ghost={'yield_type': 'yieldtag'},
-        requires=[('skip_header_bytes >= 0 and not show_progress and secondary_header_bytes >= 0', ['__proof__'])],
+        requires=[('skip_header_bytes >= 0 and not show_progress and secondary_header_bytes >= 0', ['__proof__']),
+                  ('defn_ok(self)', ['__proof__'])],
         loops={
             ('', 0): LoopSpec(
                 invariants={
